@@ -116,7 +116,14 @@ func init() {
 		}
 		// the first line:column the error message names (the message is part of the result: it must be the
 		// position in THIS source, whatever was compiled before)
-		return a + " ;; " + b + " ;; " + st + " ;; POS " + errPos(errA) + " " + errPos(errB)
+		// the second program once more, with a FRESH options value holding the parameters as they were: what it
+		// yields on its own (the oracle compares the call in the sequence with this, not with the model)
+		var fresh *pql.CompileOptions
+		if has {
+			fresh = &pql.CompileOptions{Parameters: cloneMap(before)}
+		}
+		alone := fmtCompile(fresh.Compile(unhex(c.Fields[1])))
+		return a + " ;; " + b + " ;; " + st + " ;; POS " + errPos(errA) + " " + errPos(errB) + " ;; ALONE " + alone
 	}
 	// QUOTE s|i bytes
 	moreOps["QUOTE"] = func(c Case) string {
